@@ -5,6 +5,11 @@
 (*          (OwnChoices: Timestamp unset / before / at / between / after    *)
 (*          the stamps, Committed nil / earlier / equal / later);           *)
 (*          in all other entries the own time of each case is drawn by TLC. *)
+(* smp = -2: as smp = 0 and in addition every location symbol (LocAll:       *)
+(*          ordinary, the origin (0,0), only lat 0, only lon 0) on every    *)
+(*          child and every update; in all other entries the location       *)
+(*          symbols of each case are drawn by TLC (DrawLoc: 5/8 ordinary,   *)
+(*          1/8 each origin / lat 0 / lon 0).                               *)
 (* smp = 0: every stored list of exactly L updates over n children (child   *)
 (*          un of a way not annotated, 0 = fully annotated) and times 1..T, *)
 (*          every t1 <= t2 in 0..T (exhaustive);                            *)
@@ -31,7 +36,8 @@ Lens(k, n, L, T, un) == [l \in 1 .. L + 1 |-> E(k, n, l - 1, T, un, 0)]
 OwnLens(k, n, L, T, un) == [l \in 1 .. L + 1 |-> E(k, n, l - 1, T, un, -1)]
 
 QuickPlan ==
-     OwnLens("way", 1, 2, 2, 0) \o << E("relation", 1, 1, 2, 0, -1) >>
+     << E("way", 1, 0, 2, 0, -2), E("way", 1, 1, 2, 0, -2) >>
+  \o OwnLens("way", 1, 2, 2, 0) \o << E("relation", 1, 1, 2, 0, -1) >>
   \o Lens("way", 1, 3, 2, 0) \o Lens("way", 2, 3, 2, 0) \o Lens("way", 2, 2, 2, 1)
   \o Lens("relation", 1, 2, 2, 0) \o Lens("relation", 2, 2, 2, 0) \o Lens("relation", 3, 2, 2, 0)
   \o << E("way", 3, 4, 3, 0, 700), E("way", 4, 5, 3, 0, 700), E("way", 3, 5, 3, 3, 300),
@@ -39,7 +45,9 @@ QuickPlan ==
   \o << G(2, 0, 2, 2, 0), G(2, 1, 2, 2, 0), G(3, 3, 3, 3, 400) >>
 
 ThoroughPlan ==
-     OwnLens("way", 1, 2, 3, 0) \o << E("way", 2, 2, 2, 0, -1), E("relation", 1, 1, 3, 0, -1) >>
+     << E("way", 1, 0, 2, 0, -2), E("way", 1, 1, 3, 0, -2), E("way", 2, 1, 2, 0, -2), E("way", 1, 2, 2, 0, -2),
+        E("relation", 1, 1, 2, 0, -2) >>
+  \o OwnLens("way", 1, 2, 3, 0) \o << E("way", 2, 2, 2, 0, -1), E("relation", 1, 1, 3, 0, -1) >>
   \o Lens("way", 1, 4, 3, 0) \o Lens("way", 2, 4, 3, 0) \o Lens("way", 3, 3, 3, 0) \o << E("way", 3, 4, 2, 0, 0) >>
   \o Lens("way", 2, 3, 3, 1) \o Lens("way", 2, 3, 3, 2)
   \o Lens("relation", 1, 3, 3, 0) \o Lens("relation", 2, 3, 3, 0) \o Lens("relation", 3, 2, 3, 0)
@@ -55,12 +63,23 @@ GroupEntryCases(e) ==
   IF e.smp = 0 THEN GroupCasesExact(e.n, e.L, e.T, e.m, WayMembers, DrawOwn)
   ELSE {GroupCase(e.n, e.L, e.T, 0, f, RandomElement(0 .. e.T), [i \in 1 .. e.m |-> RandomElement(MemberChoices)], DrawOwn(e.T)) :
           f \in RandomSubset(e.smp, [1 .. e.L -> Choice("way", e.n, e.T)])}
-EntryCases(e) ==
+\* (the argument is unused: TLC evaluates a definition without parameters once and would hand every point the same draw)
+LocOfDraw(r) == IF r <= 5 THEN "n" ELSE IF r = 6 THEN "o" ELSE IF r = 7 THEN "la" ELSE "lo"
+DrawLoc(j) == LocOfDraw(RandomElement(1 .. 8))
+Reloc(c) ==
+  LET chs == c.children  ups == c.updates IN
+  [c EXCEPT !.children = [j \in DOMAIN chs |-> IF Annotated(chs[j]) THEN SetLoc(chs[j], DrawLoc(j)) ELSE chs[j]],
+            !.updates = [j \in DOMAIN ups |-> SetLoc(ups[j], DrawLoc(j))]]
+BaseEntryCases(e) ==
   IF e.k = "group" THEN GroupEntryCases(e)
   ELSE IF e.smp = -1 THEN CasesExactOwn(e.k, e.n, e.L, e.T, e.un)
   ELSE IF e.smp = 0 THEN CasesExact(e.k, e.n, e.L, e.T, e.un, DrawOwn)
   ELSE {Case(e.k, ChildrenOf(e.k, e.n, e.un), MkList(f), RandomElement(Pairs(e.T)), e.T, DrawOwn(e.T)) :
           f \in RandomSubset(e.smp, [1 .. e.L -> Choice(e.k, e.n, e.T)])}
+
+EntryCases(e) ==
+  IF e.smp = -2 THEN CasesExactLoc(e.k, e.n, e.L, e.T, DrawOwn)
+  ELSE {Reloc(c) : c \in BaseEntryCases(e)}
 
 Mine == {i \in 1 .. Len(Plan) : i % atoi(IOEnv.MOD) = atoi(IOEnv.REM)}
 ASSUME \A i \in Mine : ndJsonSerialize(IOEnv.OUT \o "." \o ToString(i), SetToSeq(EntryCases(Plan[i])))
